@@ -85,7 +85,8 @@ def run_e2e(ctx, scns, label="e2e"):
 def run_probe_race(ctx):
     """Scripted schedule (real scheduler + real pool + scripted VM): a probe answer older than a container start."""
     events, out = ctx.go_run_driver("lib/dispatchcloud", e2e_overlay(ctx), "TestVerifC14ProbeRace$", [], timeout=600)
-    return drop_infra(ctx, events, "proberace")
+    ev2, out = ctx.go_run_driver("lib/dispatchcloud", e2e_overlay(ctx), "TestVerifC14LostAck$", [], timeout=600)
+    return drop_infra(ctx, events + ev2, "scripted")
 
 
 def S(a, c=0, w=0, x=""):
@@ -255,6 +256,7 @@ def run(ctx):
     if only != "i":
         ev2 += run_probe_race(ctx)
         e2e.append({"id": 9201, "n": 1, "script": "probe answer taken before a start, returned after it"})
+        e2e.append({"id": 9202, "n": 1, "script": "crunch-run --detach starts the process, its acknowledgement is lost"})
     tr2 = vlib.split_traces(ev2)
     maxw = max([e.get("w", 0) for e in ev2] + [w for e in ev2 for w in e.get("bad", []) + e.get("others", [])] + [0])
     maxc = max(s["n"] for s in e2e)
